@@ -219,12 +219,50 @@ def parseTag (tag : Name) : Option Addr :=
 def dataSize (ft : Name) : Nat := (lookup ft Gen.pcccDataSize).getD 0
 def typeCode (ft : Name) : Nat := (lookup ft Gen.pcccDataType).getD 0
 
+/-- one DF1 address field as the target reads it (1770-6.5.16, "protected typed logical read/write with three address
+    fields"): a single byte addresses 0–254; the byte 0xFF expands the field to three bytes, the 16-bit value following
+    low byte first -/
+def readField : Bytes → Option (Nat × Bytes)
+  | [] => none
+  | b :: rest =>
+      if b.toNat = 255 then
+        match rest with
+        | lo :: hi :: rest' => some (lo.toNat + 256 * hi.toNat, rest')
+        | _ => none
+      else some (b.toNat, rest)
+
+/-- byte size, file number, file type, element, sub-element of a request, and what follows them -/
+def decodeAddress (bs : Bytes) : Option (Nat × Nat × Nat × Nat × Nat × Bytes) :=
+  match bs with
+  | [] => none
+  | size :: r0 =>
+      match readField r0 with
+      | none => none
+      | some (fnum, r1) =>
+        match r1 with
+        | [] => none
+        | ftype :: r2 =>
+          match readField r2 with
+          | none => none
+          | some (elem, r3) =>
+            match readField r3 with
+            | none => none
+            | some (sub, r4) => some (size.toNat, fnum, ftype.toNat, elem, sub, r4)
+
+/-- slc_driver.py `_address_field`: one address field as the driver writes it: a single byte below 255, otherwise 0xFF and
+    the 16-bit value (UINT.encode fails above 65535) -/
+def packField (n : Nat) : R Bytes :=
+  if n < 255 then packInt .usint (.int n)
+  else do
+    let w ← packInt .uint (.int n)
+    .ok (0xFF :: w)
+
 /-- the address fields of the PCCC request: byte size, file number, file type, element, sub-element -/
 def addressFields (a : Addr) (size : Nat) : R Bytes := do
   let s ← packInt .usint (.int size)
-  let f ← packInt .usint (.int a.fileNumber)
-  let e ← packInt .usint (.int a.element)
-  let p ← packInt .usint (.int a.posNumber)
+  let f ← packField a.fileNumber
+  let e ← packField a.element
+  let p ← packField a.posNumber
   .ok (s ++ f ++ [UInt8.ofNat (typeCode a.fileType)] ++ e ++ p)
 
 /-- `_write_tag`: the sub-element byte of a write request is the I/O position, except for the preset / accumulator of a
